@@ -55,6 +55,17 @@ func buildAclFixture(dir string, o harness.Options) error {
 	if err := w.RegisterAppchain(twin, aclTwinChain, "ETH", "0x00000000000000000000000000000000000000a2", nil); err != nil {
 		return err
 	}
+	// an appchain whose id continues chainA's after a colon (appchain ids are free-form), with a service: for
+	// that service chainA's admin is the admin of another appchain
+	sub := harness.ChainAdmin(aclSubChain)
+	if _, err := w.Exec(w.Transfer(harness.User(0), sub.Addr, "100000000000000000000")); err != nil {
+		return err
+	}
+	if err := w.RegisterAppchain(sub, aclSubChain, "ETH", "0x00000000000000000000000000000000000000a2", nil); err == nil {
+		if err := w.RegisterService(sub, aclSubChain, "s1", true, ""); err == nil {
+			aclSubChainOK = true
+		}
+	}
 	// a governance admin frozen by a vote, and one who was frozen and then asked for his own logout
 	// (pending): neither is an available governance admin
 	for _, k := range []*harness.Key{frozenAdm, logoutAdm} {
@@ -92,6 +103,11 @@ func buildAclFixture(dir string, o harness.Options) error {
 
 // aclTwinChain differs from chainA only in letter case.
 const aclTwinChain = "CHAINA"
+
+// aclSubChain continues chainA's id after a colon.
+const aclSubChain = harness.ChainA + ":sub"
+
+var aclSubChainOK bool
 
 func aclPool(openProposal string) []string {
 	p := idPool()
@@ -195,11 +211,24 @@ func acl17Case(w *vlog.W, a *wargs, id int, rng *rand.Rand, opts harness.Options
 		return sb.String()
 	}
 	nCalls := 90
+	// after the random calls: every contract-to-contract entry point once, called by the admin of the very appchain
+	// it names (for an internal entry point the chain's own admin is "anyone other than the designated caller
+	// contract" like everybody else)
+	var internals []harness.Method
+	for _, cm := range classified {
+		if model.AclClass(cm.CName, cm.Name) == "internal" {
+			internals = append(internals, cm)
+		}
+	}
+	roles["named-chain-admin"] = harness.ChainAdmin(harness.ChainA)
+	ownPool := []string{harness.ChainA, harness.ChainA, "ETH", "0x00000000000000000000000000000000000000a2", "", harness.ChainA + ":s1", harness.FullID(harness.ChainA, "s1"), "reason", harness.ChainAdmin(harness.ChainA).Addr.String()}
 	shape := map[string]bool{}
-	for c := 0; c < nCalls; c++ {
+	for c := 0; c < nCalls+len(internals); c++ {
 		var m harness.Method
 		cls := ""
-		if rng.Intn(5) != 0 {
+		if c >= nCalls {
+			m, cls = internals[c-nCalls], "internal"
+		} else if rng.Intn(5) != 0 {
 			m = classified[rng.Intn(len(classified))]
 			cls = model.AclClass(m.CName, m.Name)
 		} else {
@@ -218,12 +247,24 @@ func acl17Case(w *vlog.W, a *wargs, id int, rng *rand.Rand, opts harness.Options
 			// this caller is interesting only when the victim is the chain its own id resembles
 			argPool = []string{harness.ChainA, harness.ChainA, harness.ChainA + ":s1", harness.ChainA + ":s2", harness.FullID(harness.ChainA, "s1"), "reason", "0x00000000000000000000000000000000000000a2"}
 		}
+		if c >= nCalls {
+			roleName, k, argPool = "named-chain-admin", roles["named-chain-admin"], ownPool
+		}
 		argv, ok := m.WellTyped(rng, argPool)
 		if !ok {
 			continue
 		}
+		if c >= nCalls {
+			for _, x := range argv {
+				if x.Type == pb.Arg_String {
+					x.Value = []byte(harness.ChainA) // the first string argument names the caller's own chain
+					break
+				}
+			}
+			w.Count("aimed_calls:internal-entry-point-by-the-admin-of-the-chain-it-names", 1)
+		}
 		// aimed calls: arguments taken from the victim's registered record, where a generic pool never lands
-		if aim := rng.Intn(15); aim < 5 {
+		if aim := rng.Intn(15); aim < 6 && c < nCalls {
 			aim4Done := false
 			for _, cm := range classified {
 				switch {
@@ -254,6 +295,16 @@ func acl17Case(w *vlog.W, a *wargs, id int, rng *rand.Rand, opts harness.Options
 					child := harness.FullID(harness.ChainC, "s1") + "-" + []string{harness.FullID(harness.ChainA, "s2"), harness.FullID(harness.ChainB, "s2")}[rng.Intn(2)] + "-1"
 					argv = []*pb.Arg{pb.String(child), pb.Int32(int32(1 + rng.Intn(3)))}
 					w.Count("aimed_calls:report-on-a-child-of-an-open-group", 1)
+				case aim == 5 && aclSubChainOK && cm.CName == "ServiceManager" && cm.Name == []string{"LogoutService", "ActivateService", "UpdateService"}[c%3]:
+					// chainA's admin acts on the service of the appchain whose id is "chainA:sub"
+					m, cls = cm, model.AclClass(cm.CName, cm.Name)
+					roleName = "earlier-chain-admin"
+					if cm.Name == "UpdateService" {
+						argv = []*pb.Arg{pb.String(aclSubChain + ":s1"), pb.String("svc-" + aclSubChain + "-s1"), pb.String(fmt.Sprintf("intro-%d", rng.Intn(1000))), pb.String(""), pb.String("details"), pb.String("reason")}
+					} else {
+						argv = []*pb.Arg{pb.String(aclSubChain + ":s1"), pb.String("reason")}
+					}
+					w.Count("aimed_calls:admin-of-chainA-on-a-service-of-chainA:sub", 1)
 				case aim == 4 && cm.CName == "ServiceManager" && (cm.Name == "UpdateService" || cm.Name == "LogoutService" || cm.Name == "RegisterService") && !aim4Done:
 					// the admin of an appchain that was registered earlier acts on a chain registered after it
 					aim4Done = true
